@@ -49,12 +49,12 @@ def rowOf (cols : List (List α)) (r : Nat) : List α := cols.map fun p => p.get
 /-- one linear row of `particles.topRows(lin) * exp(weights)`: `Σ_j x_j e_j` -/
 def linMean (xs ex : List α) : α := lsum (List.zipWith (fun x e => x * e) xs ex)
 
-/-- one row of `directional_statistics::directional_mean(a, w)`:
-    a single column is returned as it is (unwrapped, weight ignored); otherwise
-    `arg(Σ_k w_k e^{j a_k}) = atan2(Σ_k sin(a_k) w_k, Σ_k cos(a_k) w_k)`. -/
+/-- one row of `directional_statistics::directional_mean(a, w)` (after fix e5e0548):
+    a single column is returned wrapped, `arg(e^{j a}) = atan2(sin a, cos a)`, the weight being ignored;
+    otherwise `arg(Σ_k w_k e^{j a_k}) = atan2(Σ_k sin(a_k) w_k, Σ_k cos(a_k) w_k)`. -/
 def dirMean (xs ex : List α) : α :=
   match xs with
-  | [x] => x
+  | [x] => Transc.atan2 (Transc.sin x) (Transc.cos x)
   | _ => Transc.atan2 (lsum (List.zipWith (fun x e => Transc.sin x * e) xs ex))
                       (lsum (List.zipWith (fun x e => Transc.cos x * e) xs ex))
 
